@@ -23,6 +23,10 @@ inductive Nonce
 inductive Name
   | new (k : Key)   -- `pubToCN k` = "Z" ++ hex(marshal k)           (tls.go:435-439)
   | old (k : Key)   -- `k.String()`, the naming used before dedis/onet#485
+  /-- another spelling that `pubFromCN` decodes to `k` and that is **not** the string `pubToCN k`:
+  `hex.DecodeString` takes upper-case digits (`i = 0`), `UnmarshalFrom` reads the key's bytes and
+  leaves what follows (`i = 1`: bytes after the key) -/
+  | alt (k : Key) (i : Nat)
   | junk (i : Nat)  -- a string that names no key
   deriving DecidableEq, Repr
 
@@ -39,6 +43,7 @@ def pubToCN (k : Key) : Name := .new k
 def pubFromCN (s : Suite) : Name → Option Key
   | .new k => some k
   | .old k => if s.oldParses then some k else none
+  | .alt k _ => some k
   | .junk _ => none
 
 /-- content of the DEDIS extension: `schnorr.Sign(priv k, nonce ‖ asn1(cn))` or anything else -/
@@ -150,6 +155,53 @@ def certFor (st : Style) (k : Key) (t : TlsKey) (n : Nonce) : Option Cert :=
   else some { parses := true, count := 1, tlsKey := t, signedBy := t, validity := .ok,
               uris := (match st with | .new => [⟨true, 0, pubToCN k⟩] | .old => []),
               cn := st.name k, ext := some (.sig k n (st.name k)) }
+
+/-! ### time: the validity window (tls.go:166-167, crypto/x509 `Verify`) -/
+
+/-- `certMaker.get`: `NotBefore = now - 5 min`, `NotAfter = now + 2 h` (seconds on the maker's clock).
+There is no certificate cache: every call makes a new certificate for the nonce it was given. -/
+def certWindow (now : Int) : Int × Int := (now - 300, now + 7200)
+
+/-- crypto/x509: `now.Before(NotBefore)` → not yet valid, `now.After(NotAfter)` → expired -/
+def validityAt (nb na now : Int) : Validity :=
+  if now < nb then .notYet else if na < now then .expired else .ok
+
+/-- the certificate of `certFor`, made when the maker's clock shows `made`, looked at when the
+verifier's clock shows `now` -/
+def certForAt (st : Style) (k : Key) (t : TlsKey) (n : Nonce) (made now : Int) : Option Cert :=
+  (certFor st k t n).map fun c =>
+    { c with validity := validityAt (certWindow made).1 (certWindow made).2 now }
+
+/-! ### the nonce tunnels (tls.go:103-120, 266-284, 484-492) and a whole handshake between two nodes -/
+
+/-- what the network does to the two strings that travel before any key is agreed: the server name
+of the client hello and the first acceptable CA of the certificate request -/
+structure Tunnel where
+  serverName : Nonce → Nonce
+  acceptableCA : Nonce → Option Nonce     -- `none`: the list arrives empty (tls.go:112)
+
+/-- the network delivers what was sent -/
+def Tunnel.id : Tunnel := ⟨fun n => n, fun n => some n⟩
+
+/-- `getClientCertificate` (tls.go:111-120) -/
+def clientCertFor (k : Key) (t : TlsKey) (cas : Option Nonce) : Option Cert :=
+  match cas with
+  | none => none
+  | some n => certFor .new k t n
+
+/-- one handshake between the honest holder of `a`, who dials and wants to reach `them`, and the
+honest holder of `b`, who listens: `na` is the nonce of `NewTLSConn`'s verifier (sent as server name),
+`nb` the one of the listener's per-client verifier (sent as acceptable CA).  Result: what the two
+verifiers say (`some .oneRaw` also stands for "the peer could not make a certificate"). -/
+def pairHandshake (s : Suite) (a b them : Key) (ta tb : TlsKey) (na nb : Nonce) (tun : Tunnel) :
+    Option Check × Option Check :=
+  let dial := match certFor .new b tb (tun.serverName na) with
+    | none => some Check.oneRaw
+    | some c => verifyPeer s (some them) na [c]
+  let acc := match clientCertFor a ta (tun.acceptableCA nb) with
+    | none => some Check.oneRaw
+    | some c => verifyPeer s none nb [c]
+  (dial, acc)
 
 /-! ### the router's side (router.go) -/
 
@@ -322,6 +374,8 @@ def nameOf (t : String) : Option Name :=
   match t.splitOn ":" with
   | ["new", k] => (keyOf k).map .new
   | ["old", k] => (keyOf k).map .old
+  | ["newup", k] => (keyOf k).map (.alt · 0)
+  | ["newtail", k] => (keyOf k).map (.alt · 1)
   | ["junk"] => some (.junk 0)
   | ["empty"] => some (.junk 1)
   | _ => none
@@ -395,8 +449,16 @@ def step (s : State) (toks : List String) : State × String :=
         | "ok" => some (true, 1) | "bad" => some (false, 0) | "two" => some (true, 2) | _ => none)
       let tls : TlsKey := 10 + op
       let signer ← (match signedby with | "self" => some tls | "other" => some 99 | _ => none)
+      -- the certificate's window relative to the honest node's clock (seconds)
       let validity ← (match time with
-        | "ok" => some Validity.ok | "expired" => some .expired | "future" => some .notYet | _ => none)
+        | "ok" => some (validityAt (-300) 7200 0)
+        | "expired" => some (validityAt (-10800) (-3600) 0)
+        | "future" => some (validityAt 3600 10800 0)
+        | "justexpired" => some (validityAt (-7200) (-90) 0)
+        | "endsoon" => some (validityAt (-7200) 90 0)
+        | "justfuture" => some (validityAt 90 7200 0)
+        | "juststarted" => some (validityAt (-90) 7200 0)
+        | _ => none)
       -- nonce transport towards the deviating peer is irrelevant to the verifier; the peer's
       -- own nonce towards the honest node decides whether the honest node can answer at all
       let honestCanAnswer ← (match nonce with
@@ -419,13 +481,78 @@ def step (s : State) (toks : List String) : State × String :=
               else "hs=fail disp=-")
       | "accept" =>
         if themT ≠ "-" then none
+        -- `id=<k>`: the identity `NewServerIdentity` makes for key k; `id=<k>/<f>`: key k with the
+        -- deprecated `ID` field of key f (the sender fills both freely)
         let first ← (if idt = "none" then some First.other
-                     else (keyOf idt).map fun k => First.identity ⟨k, 0⟩)
+                     else match idt.splitOn "/" with
+                       | [k] => (keyOf k).map fun k => First.identity ⟨k, 0⟩
+                       | [k, f] => do
+                         let k ← keyOf k
+                         let f ← keyOf f
+                         pure (First.identity ⟨k, f + 1⟩)
+                       | [k, f, a] => do
+                         -- `<k>/<f>/<addr>`: also another declared address
+                         let k ← keyOf k
+                         let f ← keyOf f
+                         let a ← (match a with | "tls" => some 0 | "tcp" => some 1 | "own" => some 2 | _ => none)
+                         pure (First.identity ⟨k, f + 1 + 10 * (a + 1)⟩)
+                       | _ => none)
         let ok := honestAnswers && (verifyPeer suite none (.hon 1) raw).isNone
         let out := acceptConn suite (.hon 1) (fun _ => true) false raw first [7]
         pure (if ok then s!"hs=ok disp={match out with | (i, _) :: _ => labelOf i.pub | [] => "-"}"
               else "hs=fail disp=-")
       | _ => none
+    (s, r.getD "bad-op")
+  | "honestcert" :: rest =>
+    -- `honestcert role=<dial|accept> suite=… tlsv=… nonce=<ok|short|none|two>`: what the honest node
+    -- presents to a peer that hands it that nonce (accept: as server name; dial: as acceptable CAs —
+    -- `none`: an empty list, `two`: one more entry behind the nonce)
+    let r : Option String := do
+      let m ← kv rest
+      if m.length ≠ 4 then none
+      let role ← get m "role"
+      let _ ← (← get m "suite") |> suiteOf
+      let tlsv ← get m "tlsv"
+      if tlsv ≠ "12" ∧ tlsv ≠ "13" then none
+      let nonce ← get m "nonce"
+      let c ← (match role, nonce with
+        | "accept", "ok" => some (certFor .new 0 10 (.adv 0))
+        | "accept", "short" => some (certFor .new 0 10 .badSize)
+        | "accept", "none" => some (certFor .new 0 10 .badSize)   -- an empty server name is a string of length 0
+        | "dial", "ok" => some (clientCertFor 0 10 (some (.adv 0)))
+        | "dial", "two" => some (clientCertFor 0 10 (some (.adv 0)))
+        | "dial", "short" => some (clientCertFor 0 10 (some .badSize))
+        | "dial", "none" => some (clientCertFor 0 10 none)
+        | _, _ => none)
+      pure (match c with
+        | none => "nocert"
+        | some c =>
+          let nm : Name → String := fun n => match n with
+            | .new k => "new:" ++ labelOf k | .old k => "old:" ++ labelOf k | .alt k _ => "alt:" ++ labelOf k | .junk _ => "junk"
+          let uris := if c.uris.isEmpty then "none" else ",".intercalate (c.uris.map fun u =>
+            (if u.onet then (if u.service = 0 then "" else "svc@") else "http@") ++ nm u.name)
+          let proof := match c.ext with
+            | some (.sig k (.adv 0) cn) => labelOf k ++ "/cur/" ++ nm cn
+            | some _ => "other" | none => "none"
+          let w := certWindow 0
+          s!"certs={c.count} cn={nm c.cn} uris={uris} proof={proof} win={w.1 / 60}/{w.2 / 60} self={if c.signedBy = c.tlsKey then "yes" else "no"}")
+    (s, r.getD "bad-op")
+  | "pair" :: rest =>
+    -- `pair suite=… them=<v|o>`: the honest holder of `a`… two real nodes: h dials v believing it is `them`
+    let r : Option String := do
+      let m ← kv rest
+      if m.length ≠ 2 then none
+      let suite ← (← get m "suite") |> suiteOf
+      let them ← (← get m "them") |> keyOf
+      if them = 0 then none
+      let (d, a) := pairHandshake suite 0 1 them 10 11 (.hon 0) (.hon 1) Tunnel.id
+      let fwd := if d.isNone && a.isNone then
+          (match acceptConn suite (.hon 1) (fun _ => true) false (certFor .new 0 10 (.hon 1)).toList (.identity ⟨0, 0⟩) [7] with
+            | (i, _) :: _ => labelOf i.pub | [] => "-") else "-"
+      let back := if d.isNone && a.isNone then
+          (match dialConn suite (.hon 0) ⟨them, 0⟩ false (certFor .new 1 11 (.hon 0)).toList [7] with
+            | (i, _) :: _ => labelOf i.pub | [] => "-") else "-"
+      pure s!"link={if d.isNone && a.isNone then "ok" else "fail"} fwd={fwd} back={back}"
     (s, r.getD "bad-op")
   | _ => (s, "bad-op")
 
